@@ -15,7 +15,7 @@ CHECKS = {
     ),
     "C02": dict(
         technique="reference-model property-based testing: operator catalogue x ALL cuts of a small table (bounded-exhaustive layouts) + Hypothesis multi-step programs, pandas as oracle",
-        text="~190 operator templates of every family are executed under every way of cutting an 8-row adversarial table (unknown/known divisions, empty partitions, independent layouts for two inputs) and compared with pandas applied to the concatenated input; plus generated multi-step programs. Explicit refusals are counted. Bounded exploration; known findings D9, D12, D44 listed.",
+        text="~400 operator templates of every family are executed under every way of cutting an 8-row adversarial table (unknown/known divisions, empty partitions, independent layouts for two inputs) and compared with pandas applied to the concatenated input; plus generated multi-step programs. Explicit refusals are counted. Bounded exploration; known findings D9, D12, D44 listed.",
         note="row order / index labels compared only where the query defines them; dtype kinds with pandas' promotion; approximate operators excluded",
         ref="§3 C02",
     ),
